@@ -20,6 +20,16 @@ fn with_ret(ret: Option<TyID>, value: TyID) -> TypeResult<RetNValue> {
     Ok((ret, value))
 }
 
+/// The fields of a blob (or the variants of an enum) in the order they are
+/// written, so that which error is reported first doesn't depend on hashing.
+fn in_source_order(
+    items: &HashMap<String, (Span, ResolverType)>,
+) -> Vec<(&String, &(Span, ResolverType))> {
+    let mut items: Vec<_> = items.iter().collect();
+    items.sort_by_key(|(_, (span, _))| (span.line_start, span.col_start));
+    items
+}
+
 trait Help {
     fn help(self, typechecker: &TypeChecker, span: Span, message: String) -> Self;
     fn help_no_span(self, message: String) -> Self;
@@ -568,7 +578,7 @@ impl TypeChecker {
                     seen.insert(v.clone(), ty);
                 }
                 let num_vars = seen.len();
-                for (k, (k_span, t)) in variants.iter() {
+                for (k, (k_span, t)) in in_source_order(variants) {
                     resolved_variants.insert(
                         k.clone(),
                         (*k_span, self.inner_resolve_type(ctx, t, &mut seen)?),
@@ -609,7 +619,7 @@ impl TypeChecker {
                     seen.insert(v.clone(), ty);
                 }
                 let num_vars = seen.len();
-                for (k, (k_span, t)) in fields.iter() {
+                for (k, (k_span, t)) in in_source_order(fields) {
                     resolved_fields.insert(
                         k.clone(),
                         (*k_span, self.inner_resolve_type(ctx, t, &mut seen)?),
